@@ -406,6 +406,11 @@ func parseString(p *peeker) (node, hcl.Diagnostics) {
 		var errRange hcl.Range
 		if serr, ok := err.(*json.SyntaxError); ok {
 			errOfs := serr.Offset
+			if errOfs > 0 {
+				// Offset counts the bytes read including the offending one
+				// (and is the length of the input at a premature end).
+				errOfs--
+			}
 			errPos := tok.Range.Start
 			errPos.Byte += int(errOfs)
 
